@@ -5,6 +5,8 @@ two ten-line converters.  Rules: R-C15-table, R-C15-converters, R-C15-use.
 """
 import ast
 
+from ..core import AnalysisError
+
 from ..consteval import UNKNOWN
 from ..srcmodel import walk_own, FuncInfo
 from .common import assignments_to, unparse
@@ -376,7 +378,166 @@ def extra_coverage(res):
     return {'exhaustive': True}
 
 
+def rule_converters_evaluated(ctx, res):
+    """both converters evaluated (absint/cx.py) on inputs of unknown content:
+    p8scii_to_unicode on three symbolic bytes must be the three table
+    spellings in order; unicode_to_p8scii on three unknown code points must,
+    for every way the width table can classify them, look up exactly the
+    consecutive slices of those widths in the reverse table, in order, from
+    position 0 to the end.  -> set of directions decided"""
+    from ..absint import cx as CX
+    from ..absint.symx import BV
+    L = 'pico8.lua.lua'
+    done = set()
+    cxi = CX.Cx(ctx.model, ctx.consts)
+    mod = ctx.model.module(L)
+    dec = ctx.model.func(L + ':p8scii_to_unicode')
+    enc = ctx.model.func(L + ':unicode_to_p8scii')
+    # ---- decoder --------------------------------------------------------------
+    try:
+        table = ctx.consts.module_const(L, 'P8SCII_CHARSET')
+        want_tab = [getattr(x, 'p8string') for x in table]
+        problem = None
+        for n in (0, 1, 3):
+            bs = [BV.source(('in', k), 8) for k in range(n)]
+            paths = cxi.explore(lambda: cxi.call_function(
+                dec, [CX.Seq('bytes', list(bs))], {}))
+            if len(paths) != 1 or paths[0][0]:
+                raise CX.CxError('decoder branches on the bytes')
+            kind, val = paths[0][1]
+            if kind == 'raise':
+                problem = 'raises {} on {} bytes'.format(val.tname, n)
+                break
+            items = cxi.items(val) if not isinstance(val, str) else list(val)
+            if cxi.kind_of(val) != 'str' and val != '':
+                problem = 'returns a {}'.format(cxi.kind_of(val))
+                break
+            if len(items) != n:
+                problem = '{} bytes give {} pieces of text'.format(
+                    n, len(items))
+                break
+            for k, it in enumerate(items):
+                if not (isinstance(it, CX.SymSel) and it.index == bs[k] and
+                        list(it.table) == want_tab):
+                    problem = ('piece {} of the text is {} instead of the '
+                               'table spelling of byte {}'.format(k, it, k))
+                    break
+            if problem:
+                break
+        res.check(problem is None, 'R-C15-converters', dec.qual,
+                  'in-order concatenation (evaluated)',
+                  'p8scii_to_unicode on 0, 1 and 3 symbolic bytes: the text '
+                  'is P8SCII_CHARSET[b].p8string for each byte, in order',
+                  'decoder is not the plain concatenation of the table '
+                  'spellings: {}'.format(problem), dec.loc, semantic=True)
+        done.add('decoder')
+    except AnalysisError as e:
+        res.info('R-C15-converters', dec.qual, 'decoder not followed by the '
+                 'evaluation', str(e)[:160])
+    # ---- encoder --------------------------------------------------------------
+    try:
+        widths = cxi.global_name(mod, 'UNICODE_CHAR_WIDTHS')
+        reverse = cxi.global_name(mod, 'UNICODE_TO_P8SCII')
+        if not isinstance(widths, dict) or not isinstance(reverse, dict):
+            raise CX.CxError('width / reverse tables are not dictionaries')
+        problem = None
+        n_paths = 0
+        for n in (0, 1, 3):
+            cps = [CX.SymCp(k) for k in range(n)]
+            paths = cxi.explore(lambda: cxi.call_function(
+                enc, [CX.Seq('str', list(cps)) if n else ''], {}))
+            for conds, (kind, val) in paths:
+                n_paths += 1
+                # the widths this path assumed, per first code point
+                w_of = {}
+                known = {}          # code point index -> decided character
+                ok_path = True
+                for (desc, v) in conds:
+                    if desc[0] == 'code point':
+                        if v:
+                            known[desc[1]] = desc[3]
+                        continue
+                    if desc[0] != 'dict value':
+                        ok_path = False
+                        continue
+                    if v and desc[1] == id(widths):
+                        w_of[desc[2]] = int(desc[3])
+                if kind == 'raise':
+                    if val.tname != 'KeyError':
+                        problem = 'raises {} on unknown text'.format(
+                            val.tname)
+                    continue
+                if not ok_path:
+                    problem = 'branches on something other than the width ' \
+                              'table and the code points'
+                    break
+                items = cxi.items(val)
+                # the text as this path knows it
+                text = [known.get(k, cps[k]) for k in range(n)]
+                when = ''
+                if known:
+                    when = ' when ' + ', '.join(
+                        'code point {} is {!r}'.format(k, c)
+                        for k, c in sorted(known.items()))
+                # expected greedy parse under this path's widths
+                want = []
+                pos = 0
+                bad_w = False
+                while pos < n:
+                    first = text[pos]
+                    if isinstance(first, str):
+                        w = widths.get(first)
+                    else:
+                        w = w_of.get(repr((first,)))
+                    if w is None:
+                        bad_w = True
+                        break
+                    piece = tuple(text[pos:pos + w])
+                    if all(isinstance(x, str) for x in piece):
+                        piece = reverse.get(''.join(piece), piece)
+                    want.append(piece)
+                    pos += w
+                if bad_w:
+                    problem = ('a glyph at position {} is converted without '
+                               'its width being looked up under its first '
+                               'code point'.format(pos))
+                    break
+                got = []
+                for it in items:
+                    if isinstance(it, CX.SymDictVal) and it.d is reverse:
+                        got.append(tuple(it.key))
+                    else:
+                        got.append(it)
+                if got != want:
+                    problem = ('with glyph widths {}{} the bytes come from '
+                               'the text pieces {} instead of {}'.format(
+                                   sorted(w_of.values()), when, got, want))
+                    break
+            if problem:
+                break
+        res.check(problem is None, 'R-C15-converters', enc.qual,
+                  'greedy width-directed parse from 0 to the end (evaluated)',
+                  'unicode_to_p8scii on 0, 1 and 3 unknown code points, {} '
+                  'paths over the width table: every byte is '
+                  'UNICODE_TO_P8SCII[<the next width-many code points>], no '
+                  'piece skipped, repeated or altered'.format(n_paths),
+                  'encoder is not the width-directed parse of its argument: '
+                  '{}'.format(problem), enc.loc, semantic=True)
+        done.add('encoder')
+    except AnalysisError as e:
+        res.info('R-C15-converters', enc.qual, 'encoder not followed by the '
+                 'evaluation', str(e)[:160])
+    return done
+
+
 def run(ctx, res):
     rule_table(ctx, res)
-    rule_converters(ctx, res)
+    done = set()
+    try:
+        done = rule_converters_evaluated(ctx, res)
+    except AnalysisError as e:
+        res.info('R-C15-converters', 'rule_converters_evaluated', 'analysis',
+                 str(e)[:160])
+    if done != {'decoder', 'encoder'}:
+        rule_converters(ctx, res)
     rule_use(ctx, res)
